@@ -310,7 +310,14 @@ class Processor:
         else:
             new_value = value
 
+        if not self.has(key):
+            raise KeyError(f"Parameter {key!r} does not exist !")
+
         obj, att = _get_obj_att(self, key)
+
+        if isinstance(obj, ModelGroup):
+            # 'key' addresses a model (e.g. 'pipeline.group.model'), not a parameter
+            raise KeyError(f"Parameter {key!r} does not exist !")
 
         if isinstance(obj, dict) and att in obj:
             obj[att] = new_value
